@@ -116,6 +116,11 @@ const STACK_BUDGET: usize = 4 * MEBI;
 // Epsilon used for approximate floating-point equality checks
 const FLOAT_EQ_EPS: f64 = 1e-12;
 
+/// Deepest array nesting a value may have. Copying, promoting, printing, joining and
+/// dropping a value recurse once per nesting level without a stack check, so unbounded
+/// nesting is an unbounded native stack depth.
+const MAX_VALUE_NESTING: usize = 2048;
+
 /// The value types our runtime can work with at runtime.
 #[derive(Debug, PartialEq)]
 pub enum Value<'a> {
@@ -134,6 +139,17 @@ pub enum Value<'a> {
 }
 
 impl<'a> Value<'a> {
+    /// True when the value nests arrays more than `limit` levels deep (a scalar is 0
+    /// levels, `[]` is 1). Recurses at most `limit` levels.
+    fn nesting_exceeds(&self, limit: usize) -> bool {
+        match self {
+            Value::Array(items) => {
+                limit == 0 || items.iter().any(|item| item.nesting_exceeds(limit - 1))
+            }
+            _ => false,
+        }
+    }
+
     /// Clones the value, placing any array backing stores in the given arena.
     /// Strings use zero-cost clone. Numbers/bools/null are trivial copies.
     fn clone_into(&self, arena: &'a Arena) -> Self {
@@ -771,6 +787,12 @@ impl<'a> Runtime<'a> {
                 let mut values = Vec::with_capacity_in(elements.len(), self.frame);
                 for element in *elements {
                     let val = self.eval_expr(element)?;
+                    if val.nesting_exceeds(MAX_VALUE_NESTING - 1) {
+                        return Err(RuntimeError::new(
+                            RuntimeErrorKind::StackOverflow,
+                            element.span(),
+                        ));
+                    }
                     values.push(val);
                 }
                 Ok(Value::Array(values))
@@ -1036,6 +1058,11 @@ impl<'a> Runtime<'a> {
         match builtin {
             ArrayBuiltin::Push => {
                 let value = self.eval_expr(args.args[0])?;
+                // The receiver sits `index levels` below its variable, the value one below it.
+                let levels_above = Self::index_chain_len(receiver) + 1;
+                if value.nesting_exceeds(MAX_VALUE_NESTING.saturating_sub(levels_above)) {
+                    return Err(RuntimeError::new(RuntimeErrorKind::StackOverflow, span));
+                }
                 // Promote before pushing, the target array lives on persistent,
                 // but the value may reference frame-arena memory.
                 let value = if self.has_frame_arena() {
@@ -1684,6 +1711,11 @@ impl<'a> Runtime<'a> {
             evaluated_indices.push((idx, *index_span));
         }
 
+        // The slot sits one level below its variable per index.
+        if value.nesting_exceeds(MAX_VALUE_NESTING.saturating_sub(evaluated_indices.len())) {
+            return Err(RuntimeError::new(RuntimeErrorKind::StackOverflow, span));
+        }
+
         // Promote before taking the mutable borrow on the variable.
         let value =
             if self.has_frame_arena() { value.promote(&self.pool, self.frame) } else { value };
@@ -1720,6 +1752,16 @@ impl<'a> Runtime<'a> {
         }
 
         unreachable!("Index assignment should return inside loop");
+    }
+
+    // Number of index steps between `expr` and the variable (or temporary) it starts from.
+    fn index_chain_len(mut expr: ExprRef<'a>) -> usize {
+        let mut len = 0;
+        while let Expr::Index { array, .. } = expr {
+            len += 1;
+            expr = array;
+        }
+        len
     }
 
     fn flatten_index_target(
